@@ -61,18 +61,21 @@ func (m *module) done(data starlark.StringDict, err error) (starlark.StringDict,
 // wait waits for the receiver to finish loading. It returns an error if the module fails
 // to load or if the wait would result in a cyclic dependency.
 func (m *module) wait(waiter *module) (starlark.StringDict, error) {
-	m.m.Lock()
-	defer m.m.Unlock()
-
 	if waiter != nil {
-		loading := m.loading
-		for loading != nil {
+		seen := map[*module]struct{}{}
+		for loading := m; loading != nil; loading = loading.getLoading() {
 			if loading == waiter {
 				return nil, fmt.Errorf("cyclic dependency on %v", m.label)
 			}
-			loading = m.getLoading()
+			if _, ok := seen[loading]; ok {
+				break
+			}
+			seen[loading] = struct{}{}
 		}
 	}
+
+	m.m.Lock()
+	defer m.m.Unlock()
 
 	for !m.loaded {
 		m.cond.Wait()
